@@ -255,13 +255,32 @@ def probe_events(s, seed, nprobes, base_id):
     return conv
 
 
+def storm_chain(rng, kind):
+    """Many reloads in a row: each one brings in a service under a new name (and drops the previous newcomer), or flips one rule's class;
+    what is left at the end is small - a daemon freshly started on the last file must behave the same."""
+    n = rng.choice([33, 40])
+    keep = ("a.perm", rng.choice(proto.PROTOS))
+    rules = [{"name": "r1", "class": "c0"}, {"name": "r2", "address": "10.*", "class": "ten"}]
+    chain = []
+    for k in range(n + 1):
+        sv = [keep, ("tmp%02d.svc" % k, rng.choice(proto.PROTOS))]
+        if kind == "rule-storm":
+            rules = copy.deepcopy(rules)
+            rules[0]["class"] = "c%d" % k
+            sv = [keep]
+        chain.append((sv, copy.deepcopy(rules), [kind] if k else []))
+    return chain
+
+
 def _worker(a):
     b, seed = a["build"], a["seed"]
     rng = random.Random(seed)
     chain = []
     svcs, rules = gen_config(rng)
     chain.append((svcs, rules, []))
-    if a.get("directed"):
+    if a.get("directed") in ("rename-storm", "rule-storm"):
+        chain = storm_chain(rng, a["directed"])
+    elif a.get("directed"):
         chain = directed_chain(rng, a["directed"], svcs, rules)
     else:
         for _ in range(a["nreloads"]):
@@ -360,6 +379,9 @@ def run(chk, tier, scale=1.0):
     for i in range(npairs + ntriples):
         rng = random.Random("c17/%d/%d" % (chk.seed, i))
         jobs.append(dict(build=b, seed=rng.randrange(1 << 30), nreloads=1 if i < npairs else 2, nprobes=14, npre=rng.choice([0, 2, 4])))
+    for i in range(4 if tier == "quick" else 40):
+        rng = random.Random("c17s/%d/%d" % (chk.seed, i))
+        jobs.append(dict(build=b, seed=rng.randrange(1 << 30), nreloads=34, nprobes=10, npre=rng.choice([0, 2]), directed="rename-storm" if i % 2 == 0 else "rule-storm"))
     ndir = int((64 if tier == "quick" else 1600) * scale)
     for i in range(ndir):
         rng = random.Random("c17d/%d/%d" % (chk.seed, i))
